@@ -264,3 +264,49 @@ func TestDeriveKey(t *testing.T) {
 		t.Fatal("derive")
 	}
 }
+
+// Clone: continuing from a clone gives the same bytes as continuing from the original.
+func TestClone(t *testing.T) {
+	for _, cs := range cipherSpecs {
+		macs := []string{""}
+		if !cs.AEAD && cs.Kind != KindNone {
+			macs = []string{"hmac-sha1", "hmac-sha2-256-etm@openssh.com"}
+		}
+		for _, mac := range macs {
+			key, iv := make([]byte, cs.KeySize), make([]byte, cs.IVSize)
+			for i := range key {
+				key[i] = byte(i + 1)
+			}
+			var mk []byte
+			if ms, ok := LookupMAC(mac); ok {
+				mk = make([]byte, ms.KeySize)
+			}
+			a, err := New(cs.Name, mac, key, iv, mk)
+			if err != nil {
+				t.Fatal(cs.Name, mac, err)
+			}
+			pad := 4
+			for unit := 1 + 21 + pad; ; pad, unit = pad+1, unit+1 {
+				u := unit
+				if !a.LengthInClearOrSeparate() {
+					u += 4
+				}
+				if u%a.Alignment() == 0 {
+					break
+				}
+			}
+			body := Frame([]byte("prefix packet payload"), make([]byte, pad))
+			if _, err := a.Seal(1, uint32(len(body)), body); err != nil {
+				t.Fatal(cs.Name, mac, err)
+			}
+			b := a.Clone()
+			w1, err1 := a.Seal(2, uint32(len(body)), body)
+			w2, err2 := b.Seal(2, uint32(len(body)), body)
+			w3, _ := a.Seal(3, uint32(len(body)), body)
+			w4, _ := b.Seal(3, uint32(len(body)), body)
+			if err1 != nil || err2 != nil || string(w1) != string(w2) || string(w3) != string(w4) {
+				t.Errorf("%s %s: clone diverges", cs.Name, mac)
+			}
+		}
+	}
+}
